@@ -628,7 +628,8 @@ def rodrigues(w, theta=None):
         else:
             return np.eye(3)
     if theta is None:
-        w, theta = base.unitvec_norm(w)
+        theta = base.norm(w)
+        w = w / theta
 
     skw = skew(w)
     return np.eye(skw.shape[0]) + math.sin(theta) * skw + (1.0 - math.cos(theta)) * skw @ skw
